@@ -230,7 +230,7 @@ impl<S: Clone> Updatable<E> for RecSettable<S> {
 }
 // ---- comparison of outputs on canonical bits -------------------------------------------------
 pub fn qsame(a: &Quantity, b: &Quantity) -> bool {
-    same(a.value, b.value) && a.unit == b.unit
+    same(a.value, b.value) && a.unit.eq_assume_true(&b.unit)
 }
 pub fn fsame(a: &f32, b: &f32) -> bool {
     same(*a, *b)
